@@ -622,6 +622,16 @@ func OrWithInnerFork(inner string, dflt bool) *prog.Program {
 			b.Connect(t, g, prog.Cond{})
 		}
 		in0, out0 = f, g
+	} else if inner == "task2join" {
+		// the activity's two outgoing flows both run (through a task each) to the inclusive join
+		// itself: the join waits for both of them
+		t := b.AddNode("task", "")
+		in0 = t
+		for i := 0; i < 2; i++ {
+			u := b.AddNode("task", "")
+			b.Connect(t, u, prog.Cond{})
+			b.Connect(u, j, prog.Cond{})
+		}
 	} else {
 		t := b.AddNode("task", "")
 		g := b.AddNode("and", "")
@@ -642,7 +652,9 @@ func OrWithInnerFork(inner string, dflt bool) *prog.Program {
 		in0, out0 = t, g
 	}
 	b.Connect(o, in0, prog.Cond{K: "eq", V: "c0", C: 1})
-	b.Connect(out0, j, prog.Cond{})
+	if out0 != "" {
+		b.Connect(out0, j, prog.Cond{})
+	}
 	t1 := b.AddNode("task", "")
 	b.Connect(o, t1, prog.Cond{K: "eq", V: "c1", C: 1})
 	b.Connect(t1, j, prog.Cond{})
